@@ -34,6 +34,9 @@ type Program struct {
 	Order     []string             // contract keys in file order
 	Funcs     map[string]*FuncInfo
 	SpecFuncs map[string]*SpecFunc // pkgpath.name
+	Frames    []*FrameSpec
+	Copies    []*CopySpec
+	Owned     map[string][]string // pkgpath.Type -> owned receiver fields
 	RepoDir   string
 }
 
@@ -102,7 +105,7 @@ func LoadProgram(repo string, patterns ...string) (*Program, error) {
 		return nil, err
 	}
 	p := &Program{Fset: fset, Pkgs: map[string]*packages.Package{}, Contracts: map[string]*Contract{},
-		Funcs: map[string]*FuncInfo{}, SpecFuncs: map[string]*SpecFunc{}, RepoDir: repo}
+		Funcs: map[string]*FuncInfo{}, SpecFuncs: map[string]*SpecFunc{}, RepoDir: repo, Owned: map[string][]string{}}
 	var errs []string
 	packages.Visit(pkgs, nil, func(pk *packages.Package) {
 		if !strings.HasPrefix(pk.PkgPath, modPath) {
@@ -164,12 +167,61 @@ func LoadProgram(repo string, patterns ...string) (*Program, error) {
 
 // spec functions:  //@ spec name(a, b) = expr
 func (p *Program) parseSpecFuncs(fset *token.FileSet, f *ast.File, pkgPath string, errs *[]string) {
+	// copy blocks: "copy T.M" followed by its clauses until the next blank //@ line or block keyword
+	{
+		var cur, where []string
+		flush := func() {
+			if len(cur) > 0 {
+				cs, err := parseCopyBlock(pkgPath, cur, where)
+				if err != nil {
+					*errs = append(*errs, err.Error())
+				} else {
+					p.Copies = append(p.Copies, cs)
+				}
+			}
+			cur, where = nil, nil
+		}
+		for _, cg := range f.Comments {
+			for _, c := range cg.List {
+				if !strings.HasPrefix(c.Text, "//@") {
+					continue
+				}
+				text := strings.TrimSpace(strings.TrimPrefix(c.Text, "//@"))
+				pos := fset.Position(c.Pos())
+				w := fmt.Sprintf("%s:%d", pos.Filename, pos.Line)
+				kw := strings.Fields(text + " x")[0]
+				switch {
+				case kw == "copy":
+					flush()
+					cur, where = []string{text}, []string{w}
+				case len(cur) > 0 && (kw == "shared" || kw == "fresh" || kw == "copied" || kw == "rebound" || kw == "derived" || kw == "zero" || kw == "property"):
+					cur = append(cur, text)
+					where = append(where, w)
+				default:
+					flush()
+				}
+			}
+			flush()
+		}
+	}
 	for _, cg := range f.Comments {
 		for _, c := range cg.List {
 			if !strings.HasPrefix(c.Text, "//@") {
 				continue
 			}
 			text := strings.TrimSpace(strings.TrimPrefix(c.Text, "//@"))
+			if strings.HasPrefix(text, "frame ") || strings.HasPrefix(text, "owned ") {
+				pos := fset.Position(c.Pos())
+				fs, fields, tn, err := parseFrameLine(pkgPath, text, fmt.Sprintf("%s:%d", pos.Filename, pos.Line))
+				if err != nil {
+					*errs = append(*errs, err.Error())
+				} else if fs != nil {
+					p.Frames = append(p.Frames, fs)
+				} else {
+					p.Owned[pkgPath+"."+tn] = append(p.Owned[pkgPath+"."+tn], fields...)
+				}
+				continue
+			}
 			if strings.HasPrefix(text, "ghost ") {
 				f := strings.Fields(strings.TrimSpace(text[6:]))
 				head := strings.Join(f[:len(f)-1], " ")
